@@ -959,6 +959,37 @@ fn panic_case(case: &mut Case) {
     }
 }
 
+/// A panic in model code during simulation: `join` must end (with the panic), not hang and not
+/// return as if nothing had happened. The panic sits in `next_state` of the only initial state,
+/// so the very first trace of every worker reaches it.
+fn simulation_panic_case(case: &mut Case) {
+    let mut g = gen_graph(&mut case.rng, &Knobs { max_n: 30, allow_outside_inits: false, ..Knobs::default() });
+    let Some(init) = g.inits.iter().copied().find(|i| g.inb[*i as usize] && g.out[*i as usize].iter().any(|e| e.is_some())) else {
+        case.distinct(g.structural_hash(), false);
+        return;
+    };
+    g.inits = vec![init];
+    let reach = g.reach();
+    add_props_with_keepalive(&mut case.rng, &mut g, &reach, 1);
+    g.panic_in_next_state = Some(init);
+    case.distinct(g.structural_hash(), true);
+    let model = GraphModel(Arc::new(g));
+    case.sample(|| json!({"model": model.summary(), "panic_at": init}));
+    let threads = *case.rng.pick(&[1usize, 2, 3, 4]);
+    let c = model.clone().checker().threads(threads).target_state_count(2000).spawn_simulation(case.rng.next_u64() % 1000, stateright::UniformChooser);
+    match join_with_watchdog(c, Duration::from_secs(30)) {
+        Joined::Panicked(..) => case.add("simulation_panics_surfaced_from_join", 1),
+        Joined::Returned(..) => case.violation(
+            "C05/model-panic/simulation/panic-does-not-surface-from-join",
+            json!({"model": model.summary(), "threads": threads, "panic_at": init}),
+        ),
+        Joined::Hung => case.violation(
+            "C05/model-panic/simulation/join-hangs-after-a-model-panic",
+            json!({"model": model.summary(), "threads": threads, "panic_at": init, "note": "every worker's first trace panics; nothing is left running"}),
+        ),
+    }
+}
+
 /// The `Broker` facade driven directly by worker threads over a synthetic job tree.
 pub fn broker_case(case: &mut Case) {
     let threads = case.rng.range(2, 6);
@@ -1252,6 +1283,7 @@ pub fn run(ctx: &mut Ctx) {
     set_profile(0, 0);
     ctx.cases("simulation", ctx.n(40, 1500), 0, simulation_case);
     ctx.cases("simulation_finish_condition", ctx.n(60, 1500), 8, simulation_finish_case);
+    ctx.cases("simulation_model_panic", ctx.n(30, 600), 0, simulation_panic_case);
     ctx.info("perturbations_applied", json!(PERTURB_COUNT.load(Ordering::Relaxed)));
     verif::set_sink(None);
     verif::set_perturber(None);
